@@ -294,10 +294,10 @@ AtomicMove<SlotType, BUFFER_SIZE> {
             match self.enqueuer_tail.compare_exchange_weak(slot_id.overflowing_add(1).0, slot_id, Release, Relaxed) {
                 Ok(_) => break true,
                 Err(reloaded_enqueuer_tail) => {
-                    if (reloaded_enqueuer_tail-1) / BUFFER_SIZE as u32 > slot_id / BUFFER_SIZE as u32 {
+                    if reloaded_enqueuer_tail.wrapping_sub(1) / BUFFER_SIZE as u32 > slot_id / BUFFER_SIZE as u32 {
                         // the ring buffer cycled over -- adjust `slot_id` accordingly
                         #[cfg(feature = "verif")] crate::verif::probe("atomic_move.unleak_index.lap_adjusted");
-                        slot_id = slot_index + ( ( (reloaded_enqueuer_tail-1) / BUFFER_SIZE as u32) * BUFFER_SIZE as u32 );
+                        slot_id = slot_index + ( (reloaded_enqueuer_tail.wrapping_sub(1) / BUFFER_SIZE as u32) * BUFFER_SIZE as u32 );
                     } else {
                         break false
                     }
